@@ -119,3 +119,6 @@ SPEC = {'id': 'C18',
  'trusted': ['Go stdlib modelled by hand: net.ParseIP (netip.ParseAddr, parseIPv4Fields, parseIPv6), net.IP.String '
              '(netip appendTo4/appendTo6), IP.To4/Equal/IsUnspecified/IsLoopback, net.JoinHostPort, TCPAddr.String'],
  'assumptions': ['callers of clientIDMap hold no reference into entries (the model has value semantics)']}
+
+SPEC['rule'] += (' Added after the seeded-change rounds: ' +
+    "Attribution: the address recorded for a ClientID must stay the one of the carrier that delivered the stream's packets - streams opened one after the other on one session while carriers with different addresses come and go (model Attribution.lean, harness c18_attr_test.go); unspecified / malformed / port-only addresses through the sanitiser; more ids than the ring's capacity.")
